@@ -262,7 +262,7 @@ def run_concurrent(seed, nthreads, script_vals, opcode, kinds=("generic",)):
         t = s.spawn(f"creator{i}", worker, i)
         names[id(t)] = i
     try:
-        out = s.run()
+        out = s.run(chooser=vsched.PCT(seed, depth=1 + seed % 3, horizon=120) if seed % 3 else None)
     except vsched.Deadlock as e:
         out = "deadlock: " + str(e)
     except (vsched.StepLimit, vsched.StepHang) as e:
